@@ -159,6 +159,26 @@ def one_case(seed, n, counts):
                 dct = lpm.live_points_to_dict(lp, names)
                 if list(dct.keys()) != names or any(not same(dct[k], vals[:, i]) for i, k in enumerate(names)):
                     probs.append(("live_points_to_dict", list(dct.keys())[:3]))
+                # requests in an order different from the dtype's (also when every field of the array is requested)
+                if npts and d > 1:
+                    perm = [int(i) for i in rng.permutation(d)]
+                    pn = [names[i] for i in perm]
+                    back_p = lpm.live_points_to_array(lp, pn)
+                    counts["permuted_requests"] = counts.get("permuted_requests", 0) + 1
+                    if back_p.shape != (npts, d) or not same(back_p, vals[:, perm]):
+                        probs.append(("live_points_to_array: columns not in the requested order", dict(all_fields_requested=not ns)))
+                    dct_p = lpm.live_points_to_dict(lp, pn)
+                    if list(dct_p.keys()) != pn or any(not same(dct_p[k], vals[:, names.index(k)]) for k in pn):
+                        probs.append(("live_points_to_dict: keys/values not in the requested order", ""))
+                    if ns:
+                        allf = list(lp.dtype.names)
+                        pf = [allf[int(i)] for i in rng.permutation(len(allf))]
+                        lp2 = lp.copy()
+                        lp2["logP"], lp2["logL"] = 1.5, -2.5
+                        arr_all = lpm.live_points_to_array(lp2, pf)
+                        exp_all = np.stack([lp2[k].astype(float) for k in pf], axis=1)
+                        if arr_all.shape != exp_all.shape or not same(arr_all, exp_all):
+                            probs.append(("live_points_to_array: every field requested in another order comes back in dtype order", ""))
                 if ns:
                     full = lpm.live_points_to_dict(lp)
                     if list(full.keys()) != [f[0] for f in reg.fields(names)]:
